@@ -1,0 +1,176 @@
+//! Verification hooks (feature `verif-hooks`, off by default).
+//!
+//! A scripted-heap façade over the real collector: a test node type whose
+//! `Drop` appends its id to a shared log, and a `Heap` that lets an external
+//! driver allocate nodes, hold weak (`Gc`) and strong (`GcView`) handles,
+//! link/unlink nodes and run collections. The collector itself is untouched.
+
+use std::cell::RefCell;
+use std::rc::Rc;
+
+use crate::gc::{Gc, GcContext, GcTrace, GcTraceCtx, GcView};
+
+struct Node {
+    id: u32,
+    edges: RefCell<Vec<Gc<Node>>>,
+    freed_log: Rc<RefCell<Vec<u32>>>,
+}
+
+impl Drop for Node {
+    fn drop(&mut self) {
+        self.freed_log.borrow_mut().push(self.id);
+    }
+}
+
+impl GcTrace for Node {
+    fn trace<'a>(&self, ctx: &mut impl GcTraceCtx<'a>)
+    where
+        Self: 'a,
+    {
+        self.edges.trace(ctx);
+    }
+}
+
+enum Handle {
+    Weak(Gc<Node>),
+    Strong(GcView<Node>),
+}
+
+/// Identifies a handle held by the driver (outside the heap).
+#[derive(Copy, Clone, Debug, PartialEq, Eq, Hash)]
+pub struct HandleId(usize);
+
+pub struct Heap {
+    // Declared before `ctx` so that handles are dropped first.
+    handles: Vec<Option<Handle>>,
+    ctx: GcContext<'static>,
+    freed_log: Rc<RefCell<Vec<u32>>>,
+}
+
+impl Default for Heap {
+    fn default() -> Self {
+        Self::new()
+    }
+}
+
+impl Heap {
+    pub fn new() -> Self {
+        Self {
+            handles: Vec::new(),
+            ctx: GcContext::new(),
+            freed_log: Rc::new(RefCell::new(Vec::new())),
+        }
+    }
+
+    fn new_node(&self, id: u32) -> Node {
+        Node {
+            id,
+            edges: RefCell::new(Vec::new()),
+            freed_log: self.freed_log.clone(),
+        }
+    }
+
+    fn push_handle(&mut self, handle: Handle) -> HandleId {
+        self.handles.push(Some(handle));
+        HandleId(self.handles.len() - 1)
+    }
+
+    fn handle(&self, h: HandleId) -> &Handle {
+        self.handles[h.0].as_ref().expect("handle already dropped")
+    }
+
+    /// Like the evaluator would: goes through `Gc::view`, which panics with
+    /// "attempted to access destroyed object" if the object was reclaimed.
+    fn view(&self, h: HandleId) -> GcView<Node> {
+        match self.handle(h) {
+            Handle::Weak(gc) => gc.view(),
+            Handle::Strong(view) => view.clone(),
+        }
+    }
+
+    /// Allocates a node, the driver gets a weak (`Gc`) handle.
+    pub fn alloc(&mut self, id: u32) -> HandleId {
+        let gc = self.ctx.alloc(self.new_node(id));
+        self.push_handle(Handle::Weak(gc))
+    }
+
+    /// Allocates a node, the driver gets a strong (`GcView`) handle.
+    pub fn alloc_view(&mut self, id: u32) -> HandleId {
+        let view = self.ctx.alloc_view(self.new_node(id));
+        self.push_handle(Handle::Strong(view))
+    }
+
+    /// Clones a handle (same kind).
+    pub fn clone_handle(&mut self, h: HandleId) -> HandleId {
+        let new = match self.handle(h) {
+            Handle::Weak(gc) => Handle::Weak(gc.clone()),
+            Handle::Strong(view) => Handle::Strong(view.clone()),
+        };
+        self.push_handle(new)
+    }
+
+    /// Creates a strong handle to the node of `h`.
+    pub fn view_of(&mut self, h: HandleId) -> HandleId {
+        let view = self.view(h);
+        self.push_handle(Handle::Strong(view))
+    }
+
+    /// Creates a weak handle to the node of `h`.
+    pub fn weak_of(&mut self, h: HandleId) -> HandleId {
+        let gc = Gc::from(&self.view(h));
+        self.push_handle(Handle::Weak(gc))
+    }
+
+    pub fn is_strong(&self, h: HandleId) -> bool {
+        matches!(self.handle(h), Handle::Strong(_))
+    }
+
+    /// Adds an edge from the node of `from` to the node of `to`.
+    pub fn add_edge(&mut self, from: HandleId, to: HandleId) {
+        let to = Gc::from(&self.view(to));
+        self.view(from).edges.borrow_mut().push(to);
+    }
+
+    /// Removes the `index`-th edge of the node of `from`.
+    pub fn del_edge(&mut self, from: HandleId, index: usize) {
+        let removed = self.view(from).edges.borrow_mut().remove(index);
+        drop(removed);
+    }
+
+    pub fn drop_handle(&mut self, h: HandleId) {
+        let handle = self.handles[h.0].take().expect("handle already dropped");
+        drop(handle);
+    }
+
+    pub fn gc(&mut self) {
+        self.ctx.gc();
+    }
+
+    /// Identifier of the node of `h`.
+    pub fn id_of(&self, h: HandleId) -> u32 {
+        self.view(h).id
+    }
+
+    /// Identifiers of the nodes the node of `h` points to (in edge order).
+    pub fn edge_ids(&self, h: HandleId) -> Vec<u32> {
+        let view = self.view(h);
+        let edges = view.edges.borrow();
+        edges.iter().map(|edge| edge.view().id).collect()
+    }
+
+    pub fn num_objects(&self) -> usize {
+        self.ctx.num_objects()
+    }
+
+    /// Whether the collector left its bookkeeping (visit counts and marks)
+    /// clean in every surviving object.
+    pub fn flags_clean(&self) -> bool {
+        self.ctx.verif_flags_clean()
+    }
+
+    /// Takes the identifiers of the nodes dropped since the last call, in
+    /// order.
+    pub fn take_freed(&mut self) -> Vec<u32> {
+        std::mem::take(&mut *self.freed_log.borrow_mut())
+    }
+}
